@@ -21,6 +21,9 @@ CLAIMED = {
  "C07": dict(technique="static analysis: guarded-by must-lockset dataflow over SSA for a frozen field->mutex table (with caller-holds helpers and phase exemptions backed by ordering obligations), lock-class order graph acyclicity, who-may-read ownership of unprotected phase-ordered fields, dominance-based publication/snapshot order, lock typestate of data providers, path-sensitive retry ack",
              text="Lockset discipline, lock order, publication order and hand-over rules are schedule-independent facts: they hold for every interleaving or are violated by some. They are necessary for race-freedom and reader safety on the tabled state; races on untabled memory, linearizability and liveness are not decided.",
              note="Trusted: go/ssa; lock identity by access path within one function; the frozen tables in checker/internal/props/c07.go (each exemption has a reason and, for sealing, a backing obligation).", ref="§3 C07"),
+ "C18": dict(technique="static analysis: guarded-by lockset (incl. TryLock edges and caller-holds helpers) for cache and cleaner state, dominance-based entry state-machine order, error/panic path rules, accounting pair rules, ownership of the bucket list and a deviant-idiom detector with a proof of wrongness",
+             text="The locking discipline, the order in which an entry becomes valid or is abandoned, and the pairing of every generation move with its counter update are decided on all paths; they are necessary for coherence and correct accounting. The numeric bound after cleaning and coherence beyond the lockset are not decided.",
+             note="Trusted: go/ssa on the generic method bodies; single maintenance goroutine for the cleaner's unlocked fields (stated in the code).", ref="§3 C18"),
 }
 
 NOT_YET = "check not built yet in this round (planned in DESIGN.md §3); nothing is claimed for it"
